@@ -11,15 +11,122 @@ CLI_S = int(os.environ.get('PYVC_CLI_S', '30'))
 SCRATCH = os.environ.get('VERIF_SCRATCH', '/var/tmp')
 
 
+def index_terms(fs, limit=14):
+    """ground Int terms used as array indices in quantifier-free formulas (instantiation candidates)"""
+    out, seen = [], set()
+    todo = list(fs)
+    visited = set()
+    while todo:
+        x = todo.pop()
+        i = x.get_id()
+        if i in visited:
+            continue
+        visited.add(i)
+        if z3.is_quantifier(x):
+            continue
+        if z3.is_app(x):
+            if x.decl().kind() in (z3.Z3_OP_SELECT, z3.Z3_OP_STORE) and x.num_args() >= 2:
+                t = x.arg(1)
+                if z3.is_int(t) and t.get_id() not in seen and not z3.is_int_value(t):
+                    seen.add(t.get_id())
+                    out.append(t)
+            todo.extend(x.children())
+    out.sort(key=lambda t: len(t.sexpr()))
+    return out[:limit]
+
+
+def instantiate(h, terms, cap=160):
+    """ground instances of a top-level ForAll over Int variables"""
+    if not (z3.is_quantifier(h) and h.is_forall()):
+        return []
+    n = h.num_vars()
+    if n > 3 or any(h.var_sort(i) != z3.IntSort() for i in range(n)):
+        return []
+    import itertools
+    out = []
+    for tup in itertools.islice(itertools.product(terms, repeat=n), cap):
+        # de Bruijn: variable 0 is the innermost = last declared
+        inst = z3.substitute_vars(h.body(), *reversed(tup))
+        from .core import has_quant
+        if not has_quant(inst):
+            out.append(inst)
+    return out
+
+
+def array_consts(fs):
+    out, visited = {}, set()
+    todo = list(fs)
+    while todo:
+        x = todo.pop()
+        i = x.get_id()
+        if i in visited:
+            continue
+        visited.add(i)
+        if z3.is_quantifier(x):
+            todo.append(x.body())
+            continue
+        if z3.is_const(x) and x.decl().kind() == z3.Z3_OP_UNINTERPRETED and z3.is_array(x):
+            out[x.decl().name()] = x
+        if z3.is_app(x):
+            todo.extend(x.children())
+    return list(out.values())
+
+
+_fs = [0]
+
+
+def finite_support(a, terms, depth=0):
+    """a == Store(...Store(K(default), t1, v1)..., tk, vk) with fresh v_i: the array is `default` outside the scope"""
+    srt = a.sort()
+    rng = srt.range()
+    if srt.domain() != z3.IntSort():
+        return None
+    if rng == z3.IntSort():
+        base = z3.K(z3.IntSort(), z3.IntVal(0))
+    elif rng == z3.BoolSort():
+        base = z3.K(z3.IntSort(), z3.BoolVal(False))
+    elif isinstance(rng, z3.ArraySortRef) and rng.domain() == z3.IntSort() and rng.range() == z3.IntSort() and depth == 0:
+        base = z3.K(z3.IntSort(), z3.K(z3.IntSort(), z3.IntVal(0)))
+    else:
+        return None
+    cons = []
+    chain = base
+    for t in terms:
+        _fs[0] += 1
+        v = z3.Const(f"fs!{_fs[0]}", rng)
+        if isinstance(rng, z3.ArraySortRef):
+            c2 = finite_support(v, terms, depth + 1)
+            if c2:
+                cons.extend(c2)
+        chain = z3.Store(chain, t, v)
+    cons.append(a == chain)
+    return cons
+
+
 def to_smt2(ob, ground=False):
-    """ground=True: only the quantifier-free hypotheses (a weaker query whose models are *candidates* that must be
-    confirmed by native replay before they count)"""
+    """ground=True: the quantifier-free hypotheses plus ground instances of the universal ones at the index terms of
+    the VC.  A model of this weaker query is only a *candidate*: it counts when it validates against the full VC
+    (all constants fixed to the model's values) or when the native replay reproduces it."""
     from .core import has_quant
     s = z3.Solver()
-    for h in ob.hyps:
-        if ground and has_quant(h):
-            continue
-        s.add(h)
+    qf = [h for h in ob.hyps if not has_quant(h)]
+    if ground:
+        terms = index_terms(qf + [ob.goal])
+        scope = terms[:8]
+        for a in array_consts(list(ob.hyps) + [ob.goal]):
+            if a.decl().name().startswith('H'):
+                continue        # heap fields: unconstrained outside the scope
+            for cst in finite_support(a, scope) or []:
+                s.add(cst)
+        for h in ob.hyps:
+            if has_quant(h):
+                for inst in instantiate(h, terms):
+                    s.add(inst)
+            else:
+                s.add(h)
+    else:
+        for h in ob.hyps:
+            s.add(h)
     s.add(z3.Not(ob.goal))
     for label, term in getattr(ob, 'probes', {}).items():
         try:
@@ -105,12 +212,36 @@ def solve_one(args):
             s = z3.Solver()
             s.set('timeout', Z3_MS)
             s.from_string(ground)
-            r = s.check()
-            log.append(('z3-5.1(api) ground-weakening', str(r), round(time.time() - t0, 3)))
-            if r == z3.sat:
-                return idx, 'candidate', 'z3-5.1(api) ground-weakening', time.time() - t0, model_dict(s.model()), log
+            for attempt in range(3):
+                r = s.check()
+                log.append(('z3-5.1(api) ground-instances', str(r), round(time.time() - t0, 3)))
+                if r != z3.sat:
+                    break
+                m = s.model()
+                # validate the candidate against the full VC: fix every constant to its model value
+                s2 = z3.Solver()
+                s2.set('timeout', Z3_MS)
+                s2.from_string(text)
+                block = []
+                for d in m.decls():
+                    if d.arity() == 0:
+                        try:
+                            c = d()
+                            s2.add(c == m[d])
+                            if not z3.is_array(c):
+                                block.append(c != m[d])
+                        except Exception:
+                            pass
+                r2 = s2.check()
+                log.append(('z3-5.1(api) validate-candidate', str(r2), round(time.time() - t0, 3)))
+                if r2 == z3.sat:
+                    return idx, 'sat', 'z3-5.1(api) ground-instances+validation', time.time() - t0, model_dict(s2.model()), log
+                cand = model_dict(m)
+                if attempt == 2 or not block:
+                    return idx, 'candidate', 'z3-5.1(api) ground-instances', time.time() - t0, cand, log
+                s.add(z3.Or(block))
         except Exception as e:
-            log.append(('ground', 'error:' + str(e)[:100], 0))
+            log.append(('ground', 'error:' + str(e)[:200], 0))
     return idx, 'unknown', None, time.time() - t0, None, log
 
 
